@@ -3240,6 +3240,8 @@ pub(crate) enum ModuleSourceAndInfo {
     specifier: ModuleSpecifier,
     mtime: Option<SystemTime>,
     source: ModuleTextSource,
+    /// The bytes the loader supplied when decoding them lost information.
+    maybe_undecoded_bytes: Option<Arc<[u8]>>,
   },
   Js {
     specifier: ModuleSpecifier,
@@ -3248,6 +3250,8 @@ pub(crate) enum ModuleSourceAndInfo {
     module_info: Box<ModuleInfo>,
     mtime: Option<SystemTime>,
     source: ModuleTextSource,
+    /// The bytes the loader supplied when decoding them lost information.
+    maybe_undecoded_bytes: Option<Arc<[u8]>>,
   },
   Wasm {
     specifier: ModuleSpecifier,
@@ -3280,15 +3284,29 @@ impl ModuleSourceAndInfo {
   /// a loader verifies a checksum against.
   pub fn source_bytes(&self) -> Cow<'_, [u8]> {
     match self {
-      Self::Json { source, .. } | Self::Js { source, .. } => {
-        match source.decoded_kind {
-          DecodedArcSourceDetailKind::OnlyUtf8Bom => source
-            .try_get_original_bytes()
-            .map(|bytes| Cow::Owned(bytes.to_vec()))
-            .unwrap_or(Cow::Borrowed(source.text.as_bytes())),
-          _ => Cow::Borrowed(source.text.as_bytes()),
-        }
+      Self::Json {
+        source,
+        maybe_undecoded_bytes,
+        ..
       }
+      | Self::Js {
+        source,
+        maybe_undecoded_bytes,
+        ..
+      } => match source.decoded_kind {
+        DecodedArcSourceDetailKind::OnlyUtf8Bom => source
+          .try_get_original_bytes()
+          .map(|bytes| Cow::Owned(bytes.to_vec()))
+          .unwrap_or(Cow::Borrowed(source.text.as_bytes())),
+        // another charset or invalid UTF-8: the text is not what was served
+        DecodedArcSourceDetailKind::Changed => maybe_undecoded_bytes
+          .as_deref()
+          .map(Cow::Borrowed)
+          .unwrap_or(Cow::Borrowed(source.text.as_bytes())),
+        DecodedArcSourceDetailKind::Unchanged => {
+          Cow::Borrowed(source.text.as_bytes())
+        }
+      },
       Self::Wasm { source, .. } => Cow::Borrowed(source),
     }
   }
@@ -3369,6 +3387,7 @@ pub(crate) async fn parse_module_source_and_info(
         Some("json")
       ))
   {
+    let content = opts.content.clone();
     return new_source_with_text(
       &opts.specifier,
       opts.content,
@@ -3379,6 +3398,9 @@ pub(crate) async fn parse_module_source_and_info(
     .map(|source| ModuleSourceAndInfo::Json {
       specifier: opts.specifier,
       mtime: opts.mtime,
+      maybe_undecoded_bytes: (source.decoded_kind
+        == DecodedArcSourceDetailKind::Changed)
+        .then_some(content),
       source,
     });
   }
@@ -3423,6 +3445,7 @@ pub(crate) async fn parse_module_source_and_info(
     | MediaType::Dts
     | MediaType::Dmts
     | MediaType::Dcts => {
+      let content = opts.content.clone();
       let source = new_source_with_text(
         &opts.specifier,
         opts.content,
@@ -3430,6 +3453,9 @@ pub(crate) async fn parse_module_source_and_info(
         opts.mtime,
         opts.maybe_referrer,
       )?;
+      let maybe_undecoded_bytes = (source.decoded_kind
+        == DecodedArcSourceDetailKind::Changed)
+        .then_some(content);
       match module_analyzer
         .analyze(&opts.specifier, source.text.clone(), media_type)
         .await
@@ -3441,6 +3467,7 @@ pub(crate) async fn parse_module_source_and_info(
             media_type,
             mtime: opts.mtime,
             source,
+            maybe_undecoded_bytes,
             maybe_headers: opts.maybe_headers,
             module_info: Box::new(module_info),
           })
@@ -3531,6 +3558,7 @@ pub(crate) fn parse_module(
       specifier,
       mtime,
       source,
+      maybe_undecoded_bytes: _,
     } => Module::Json(JsonModule {
       maybe_cache_info: None,
       source,
@@ -3545,6 +3573,7 @@ pub(crate) fn parse_module(
       maybe_headers,
       module_info,
       source,
+      maybe_undecoded_bytes: _,
     } => Module::Js(parse_js_module_from_module_info(
       options.graph_kind,
       specifier,
